@@ -66,6 +66,8 @@ def resolve(fq: str):
         try:
             for p in parts[cut:]:
                 obj = getattr(obj, p)
+            if isinstance(obj, property):
+                return obj.fget  # a contract on a @property is a contract on its getter
             return obj
         except AttributeError:
             continue
@@ -109,6 +111,30 @@ def safe_deepcopy(x, _depth=0):
     return x
 
 
+def _patch_logged(contract_cls):
+    """LOGGED_FUNCTIONS of the contract's spec file: the real module-level function is wrapped, for one evaluation,
+    by a recorder of (args, kwargs, deep copy of the result); callers must look the name up at call time (module
+    attribute or function-local import), which is what the symbolic side's static resolution assumes too."""
+    import sys as _sys
+    from . import dsl as _dsl
+    _dsl._FLOG.clear()
+    undo = []
+    for fq in getattr(_sys.modules.get(contract_cls.__module__), "LOGGED_FUNCTIONS", []):
+        modname, _, short = fq.rpartition(".")
+        mod = importlib.import_module(modname)
+        orig = getattr(mod, short)
+
+        def wrapper(*a, __orig=orig, __short=short, **kw):
+            rec_args = tuple(safe_deepcopy(x) for x in a)
+            r = __orig(*a, **kw)
+            _dsl._FLOG.setdefault(__short, []).append((rec_args, dict(kw), r))
+            return r
+
+        setattr(mod, short, wrapper)
+        undo.append((mod, short, orig))
+    return undo
+
+
 def check_once(contract_cls, fn, args: dict, clauses=None):
     """-> (status, failures)  status: ok | skipped | fail ; failures: [(clause, detail)]"""
     try:
@@ -137,6 +163,7 @@ def check_once(contract_cls, fn, args: dict, clauses=None):
     failures = []
     raised = None
     result = None
+    undo = _patch_logged(contract_cls)
     try:
         result = fn(**args)
         if inspect.iscoroutine(result):
@@ -145,6 +172,9 @@ def check_once(contract_cls, fn, args: dict, clauses=None):
             result = asyncio.run(result)
     except Exception as e:  # noqa
         raised = e
+    finally:
+        for mod_, name_, orig_ in undo:
+            setattr(mod_, name_, orig_)
     allowed = getattr(contract_cls, "raises", None)
     if allowed is None and getattr(contract_cls, "inherits", None):
         import sys as _sys
